@@ -169,11 +169,10 @@ type c02Env struct {
 func newC02Env(c *CfgSpec) (*c02Env, error) {
 	e := &c02Env{spec: c, sem: c.Sem()}
 	for d := 0; d < 2; d++ {
-		mw, err := newMiddlewareVia(c.Config(), int(hashString(specKey(c)))&7+d)
+		mw, err := newMiddlewareViaDbg(c.Config(), int(hashString(specKey(c))>>3&0xffff)+5*d, d == 1)
 		if err != nil {
 			return nil, err
 		}
-		mw.SetDebug(d == 1)
 		e.mw[d] = mw
 	}
 	return e, nil
